@@ -200,18 +200,22 @@ func (f *ClosedSetsFinder) findClosedSetOfObjects(done bool) (err error) {
 }
 
 func (f *ClosedSetsFinder) enqueueWants(cont func(want string, c *objects.Commit) bool) (err error) {
-	alreadySeenCommits := map[string]struct{}{}
+	// commits already listed for a previous want
+	listedCommits := map[string]struct{}{}
 wantsLoop:
 	for want := range f.Wants {
 		commitList := list.New()
 		tableList := list.New()
+
+		// breadth-first walk from the want down to the common commits. Each
+		// commit is expanded once, at its distance from the want.
+		commits := map[string]*objects.Commit{}
+		depths := map[string]int{}
 		q := list.New()
 		q.PushBack(commitDepth{[]byte(want), 0})
-		sums := [][]byte{}
 		for q.Len() > 0 {
 			cd := q.Remove(q.Front()).(commitDepth)
-			sums = append(sums, cd.sum)
-			if _, ok := alreadySeenCommits[string(cd.sum)]; ok {
+			if _, ok := commits[string(cd.sum)]; ok {
 				continue
 			}
 			if _, ok := f.commons[string(cd.sum)]; ok {
@@ -221,10 +225,8 @@ wantsLoop:
 			if err != nil {
 				return err
 			}
-			commitList.PushFront(c)
-			if f.depth == 0 || cd.depth < f.depth {
-				tableList.PushFront(c.Table)
-			}
+			commits[string(cd.sum)] = c
+			depths[string(cd.sum)] = cd.depth
 			if cont != nil && cont(want, c) {
 				continue wantsLoop
 			}
@@ -232,12 +234,48 @@ wantsLoop:
 				q.PushBack(commitDepth{p, cd.depth + 1})
 			}
 		}
+
+		// list the commits parents first (depth-first post-order), skipping
+		// those already listed for another want. Tables are selected by the
+		// distance from this want even if the commit was listed before.
+		type frame struct {
+			sum  string
+			next int
+		}
+		done := map[string]struct{}{}
+		stack := []frame{}
+		if _, ok := commits[want]; ok {
+			stack = append(stack, frame{want, 0})
+			done[want] = struct{}{}
+		}
+		for len(stack) > 0 {
+			fr := &stack[len(stack)-1]
+			c := commits[fr.sum]
+			if fr.next < len(c.Parents) {
+				p := string(c.Parents[fr.next])
+				fr.next++
+				if _, ok := commits[p]; !ok {
+					continue
+				}
+				if _, ok := done[p]; ok {
+					continue
+				}
+				done[p] = struct{}{}
+				stack = append(stack, frame{p, 0})
+				continue
+			}
+			if _, ok := listedCommits[fr.sum]; !ok {
+				commitList.PushBack(c)
+				listedCommits[fr.sum] = struct{}{}
+			}
+			if f.depth == 0 || depths[fr.sum] < f.depth {
+				tableList.PushBack(c.Table)
+			}
+			stack = stack[:len(stack)-1]
+		}
 		// queue is exhausted mean everything is reachable from commons
 		f.commitLists = append(f.commitLists, commitList)
 		f.tableSumLists = append(f.tableSumLists, tableList)
-		for _, sum := range sums {
-			alreadySeenCommits[string(sum)] = struct{}{}
-		}
 	}
 	f.Wants = map[string]struct{}{}
 	return nil
